@@ -205,6 +205,12 @@ namespace hv
         static constexpr auto name = "v_sum2";
         static void eval(In<"lhs", TS<Int>> a, In<"rhs", TS<Int>> b, Out<TS<Int>> out) { out.set(a.value() + b.value()); }
     };
+    // order-sensitive combiner (ordered reductions): lhs * 3 + rhs, wrapped
+    struct VOrd2
+    {
+        static constexpr auto name = "v_ord2";
+        static void eval(In<"lhs", TS<Int>> a, In<"rhs", TS<Int>> b, Out<TS<Int>> out) { out.set((a.value() * 3 + b.value()) % 1000003); }
+    };
     struct VMax2
     {
         static constexpr auto name = "v_max2";
